@@ -154,3 +154,19 @@ def prepare_canonical(engine):
     _copy(os.path.join(VERIF, "harness", "shadow", "canonical_shim.rs"), os.path.join(dst, "src", "lib.rs"))
     _common_manifest(dst, "verif-shadow-canonical", deps='log = "0.4.17"\nnonempty = "0.9.0"\ngit2 = { path = "/verif/harness/shadow/shims/git2" }\n')
 
+
+
+def prepare_limiter(engine):
+    """Single-file shadow of radicle-node/src/service/limiter.rs: HashMap/HashSet imports rewritten to
+    two-slot models; everything else it imports (HostName, NodeId, address::is_routable,
+    config::RateLimit, LocalTime) is the real code, through path dependencies on /repo's crates."""
+    dst = os.path.join(SHADOW, "limiter")
+    src = os.path.join(REPO, "crates", "radicle-node", "src", "service", "limiter.rs")
+    text, _, _ = rewrite_collections(open(src).read(), "limiter.rs")
+    # the in-crate hook line of the real file points at the in-crate harness; drop it in the shadow
+    text = re.sub(r"(?ms)^// Verification hook:.*?^mod verif_kani;\n", "", text)
+    text += '\n#[cfg(kani)]\n#[path = "/verif/harness/shadow/limiter_harness.rs"]\nmod verif_kani;\n'
+    write_if_changed(os.path.join(dst, "src", "limiter.rs"), text)
+    _copy(os.path.join(VERIF, "harness", "shadow", "vhash.rs"), os.path.join(dst, "src", "vcoll.rs"))
+    write_if_changed(os.path.join(dst, "src", "lib.rs"), "//! Shim crate around the single-file shadow of radicle-node's service/limiter.rs.\n#![allow(dead_code, unused_imports)]\npub mod vcoll;\npub mod limiter;\n")
+    _common_manifest(dst, "verif-shadow-limiter", deps=f'localtime = "1.2.0"\nserde = {{ version = "1.0", features = ["derive"] }}\nradicle = {{ path = "{REPO}/crates/radicle" }}\n')
